@@ -202,6 +202,31 @@ def reference(ck, sc, tier, limit=None):
     return summary
 
 
+# one small honest program per widget (used by checks that want the reference-verifier
+# comparison on every widget without generating gadget scenarios)
+WIDGET_PROGRAMS = [
+    {"id": "w-arith", "ops": [{"op": "witness", "v": 7, "out": "x"}, {"op": "witness", "v": 11, "out": "y"},
+                              {"op": "gate_mul", "q": {"m": 4, "f": 1, "c": -2}, "w": ["x", "y", 0, "x"], "pi": 6, "out": "p"},
+                              {"op": "public", "v": 33, "out": "q"}]},
+    {"id": "w-range", "ops": [{"op": "witness", "v": 201, "out": "x"}, {"op": "range_bits", "w": "x", "bits": 9}]},
+    {"id": "w-logic", "ops": [{"op": "witness", "v": 201, "out": "a"}, {"op": "witness", "v": 77, "out": "b"},
+                              {"op": "logic", "a": "a", "b": "b", "pairs": 4, "xor": True, "out": "o"}]},
+    {"id": "w-fixed", "ops": [{"op": "witness", "v": 12345, "out": "s"},
+                              {"op": "mul_generator", "s": "s", "pt": {"name": "G"}, "out": "R"}]},
+    {"id": "w-var", "ops": [{"op": "append_constant_point", "pt": {"mul": 3, "of": {"name": "G"}}, "out": "P"},
+                            {"op": "append_constant_point", "pt": {"mul": 9, "of": {"name": "G"}}, "out": "Q"},
+                            {"op": "add_point", "a": "P", "b": "Q", "out": "R"}]},
+]
+
+
+def reference_widgets(ck, tier):
+    import c03
+    summary = c03.reference_check(ck, WIDGET_PROGRAMS, tier=tier, tag="ref-" + ck.pid)
+    ck.extra["reference_verifier"] = {k: summary.get(k) for k in
+                                      ("programs", "triples", "disagreements", "transcript_differences")}
+    return summary
+
+
 def standard(pid, tier, mc, weak, scen, notes=None, site_of=None, extra_scen=None, mc_expect_violation=()):
     ck = vlib.Check(pid, tier)
     ck.assumptions = [
